@@ -90,15 +90,18 @@ Section CMS.
   (* ---- observable printed for the harness, after every prefix:
           queries of the listed items, the listed cells, the row sums, the shape ---- *)
   Definition oz (o : option Z) : Z := match o with Some q => q | None => -1 end.
-  Definition obs1 (items : list N) (cells : list (nat * nat)) (M : matrix) : list Z * list Z * list Z :=
+  Definition obs1 (items : list N) (cells : list (N * N)) (M : matrix) : list Z * list Z * list Z * bool :=
     (map (fun x => oz (query M x)) items,
-     map (fun ij => cell M (fst ij) (snd ij)) cells,
-     map (fun i => rowsum M i) (seq 0 depth)).
-  Definition shape_ok (M : matrix) : bool :=
-    Nat.eqb (length M) depth && forallb (fun r => Nat.eqb (length r) width) M.
-  Definition obs (items : list N) (cells : list (nat * nat)) (ops : list op) :=
-    let tr := trace init ops in
-    (map (obs1 items cells) tr, forallb shape_ok tr).
+     map (fun ij => cell M (N.to_nat (fst ij)) (N.to_nat (snd ij))) cells,
+     map (fun i => rowsum M i) (seq 0 depth),
+     Nat.eqb (length M) depth && forallb (fun r => Nat.eqb (length r) width) M).
+  (* computed on the fly, so that earlier matrices need not be kept *)
+  Fixpoint obs_from (items : list N) (cells : list (N * N)) (M : matrix) (ops : list op) :=
+    match ops with
+    | [] => []
+    | o :: r => let M' := step M o in obs1 items cells M' :: obs_from items cells M' r
+    end.
+  Definition obs (items : list N) (cells : list (N * N)) (ops : list op) := obs_from items cells init ops.
 
   (* ---- property-level checker evaluated on what the IMPLEMENTATION returned:
           per prefix the queries of [items] and the row sums ---- *)
